@@ -100,6 +100,14 @@ CLAIMS = {
          'H: DecodedPicture stores the parsed header and the format in force unmodified, sizes its planes from it, nobody else writes them; S: standard format sizes. '
          'Not decided: which of the two SSS bits is RECTANGULAR_SLICES; that read_bits returns MSB-first integers is C04/C05/C14 territory.',
     technique='decision-table extraction from MIR (path conditions in a bit-slice domain, reaching definitions, set-insertion model of |=) + semantic DNF comparison with a written-out specification table; who-may-write effect rule; const folding', ref='6/C06'),
+ 'C10': dict(
+    text='PARTIAL BY DESIGN: the Annex A error statistics (peak error 1, mean-square and mean error bounds over 60 000 random blocks) quantify over f32 rounding and are '
+         'NOT decided - no static argument in reach bounds them. Decided are the structural conditions the accuracy rests on, each a necessary condition whose breakage '
+         'changes decoded samples: A BASIS_TABLE (folded from const MIR) against c(u)cos((2i+1)u pi/16) within 4e-6 at all 64 entries; B idct_1d is the sum over u of '
+         'input[u]*BASIS_TABLE[u][i] from zero; C all four arms of idct_channel store clamp(clamp(trunc(s*v + 0.5 signum v), -256, 255) + old, 0, 255) at sample '
+         '(8bx+x, 8by+y) with x,y cropped to the plane, s = 1/4, B00/4, 1/8; Full = rows, transposition, columns; Zero stores nothing (all-zero -> unchanged); '
+         'E the sparse shortcuts are selected only for blocks of their shape (sticky flags cleared exactly on a non-zero coefficient off the row / column) with the right payloads.',
+    technique='const-table folding against a formula; loop-index-normalised def-use expressions compared with written-out forms; control-dependence guards of sticky flags', ref='6/C10'),
  'C17': dict(
     text='Static, all executions: no shared mutable state and no nondeterminism source exists in the three crates. S1 every static immutable+Freeze '
          '(lazy_static cells: pure constant initialiser), S2 zero unsafe/extern (HIR walk), S3 interprocedural mod/ref summaries show no static is written, '
